@@ -356,10 +356,15 @@ def run(ctx):
                 ctx.count("unknown.on-" + ref["status"])
                 ctx.count("unknown.%s.%s" % (tag, "p0" if ref["p"] is not None and abs(ref["p"]) < 1e-9 else "other"))
                 continue
-            if st == "dual infeasible" and ref["status"] == "infeasible" and lpref.dual_infeasible(vars_, P["obj"], shadow_cons):
-                # primal and dual infeasible: either certificate is a correct answer
-                ctx.count("status.both-infeasible.dual-reported")
+            if st == "dual infeasible" and ref["status"] == "infeasible" and \
+                    (tag != "glpk" or lpref.dual_infeasible(vars_, P["obj"], shadow_cons)):
+                # 'dual infeasible' is backed by a certificate (default solver): a problem can be primal and dual
+                # infeasible at once, and on badly scaled data the determination is numerical.  The status is
+                # accepted iff the returned certificate passes the recession test; otherwise it is a violation.
+                nf = len(c.failed)
                 judge(c, P, dict(ref, status="unbounded"), rv, obj, rcons, p, tag, rng)
+                if len(c.failed) == nf:
+                    ctx.count("status.dual-infeasible-certified-on-infeasible-reference")
                 continue
             if st != expect:
                 c.fail(mech(p, rcons, ref, "solve:status-%s-but-reference-%s" % (st.replace(" ", "-"), ref["status"])),
@@ -475,7 +480,7 @@ def run(ctx):
         pl = lib_lp_optimum(p)
         if pl is not None and pl[0] is not None:
             if pl[0] != ref["status"] or (pl[1] is not None and abs(pl[1] - ref["p"]) > 1e-6 * max(1.0, abs(ref["p"]))):
-                return "solve:matrix-form-assembly-changes-the-problem"
+                return "solve:matrix-form-conversion-changes-the-problem"
         if "multiplier" in generic or "infeasibility-certificate" in generic:
             if pieces_differ(rcons):
                 return "solve:multiplier-sum-broadcasts-pieces-of-different-length"
